@@ -31,7 +31,7 @@ std::string check_rounds(int P, int J, int R, bool need_maps, std::string& sig) 
 // (A) mpi_skel<Job>::run called R times in a row on the same communicator (the boss works too)
 VxHarness make_skel(const VxConfig& c) {
     int P = c.p.at("P"), J = c.p.at("J"), R = c.p.at("R"), distinct = c.p.at("cx");
-    VxHarness h; h.mpi.P = P; h.mpi.rendezvous = c.p.at("rdv");
+    VxHarness h; h.mpi.P = P; h.mpi.rendezvous = c.p.at("rdv"); h.mpi.delayed = c.p.count("delay") && c.p.at("delay");
     h.reset = []() { static Shared s; s = Shared(); SH = &s; };
     h.body = [=](int rank) {
         boost::mpi::communicator comm;
@@ -51,7 +51,7 @@ VxHarness make_skel(const VxConfig& c) {
 // (B) the dedicated-master loop of test/mpi_dispatcher_test_nomaster.cpp, R rounds separated by a barrier
 VxHarness make_nomaster(const VxConfig& c) {
     int P = c.p.at("P"), J = c.p.at("J"), R = c.p.at("R");
-    VxHarness h; h.mpi.P = P; h.mpi.rendezvous = c.p.at("rdv");
+    VxHarness h; h.mpi.P = P; h.mpi.rendezvous = c.p.at("rdv"); h.mpi.delayed = c.p.count("delay") && c.p.at("delay");
     h.reset = []() { static Shared s; s = Shared(); SH = &s; };
     h.body = [=](int rank) {
         boost::mpi::communicator world; int ROOT = 0;
@@ -92,6 +92,17 @@ int run_c16(const Args& a, Recorder& rec) {
         long nworkers = (c.harness == "skel") ? c.p.at("P") : c.p.at("P") - 1; bool vary = nworkers >= 2 && c.p.at("J") > nworkers;      // more jobs than workers: who gets the later jobs depends on timing if (vary) { should_vary++; if (distinct <= 1 && R.found.empty() && R.exhaustive) throw std::runtime_error("vacuous exploration: " + c.str() + " produced a single job->rank assignment in " + std::to_string(R.executions) + " executions"); }
         std::ostringstream s; s << c.str() << " : executions=" << R.executions << " states=" << R.states << " transitions=" << R.transitions << " outcomes=" << distinct << " longest=" << R.max_points << (R.exhaustive ? "" : " (NOT exhausted)"); if (idx % 7 == 0 || !R.found.empty()) rec.sample(s.str(), 12);
         rec.enum_states += R.states; rec.enum_transitions += 0;
+        // explicit message delay: every message needs a separate 'deliver' step.  For this star-shaped protocol instant delivery + all
+        // interleavings is argued to cover all delivery timings (DESIGN 6.1); here the argument is CHECKED on the smaller configurations:
+        // the delayed exploration must terminate without violation and produce exactly the same set of outcomes.
+        bool small = c.p.at("P") <= (T ? 3 : 2) + (c.harness == "nomaster" ? 1 : 0) && c.p.at("J") <= 3 && c.p.at("R") <= 2 && (c.p.at("P") < 3 || c.p.at("J") <= 2 || T);
+        if (small && R.found.empty() && R.exhaustive && clk.s() < a.deadline) {
+            VxConfig cd_ = c; cd_.p["delay"] = 1; vmpi::ExploreResult D = vx_explore(a, rec, cd_, -1, std::max(10.0, a.deadline - clk.s()), T ? 3000000 : 400000, "C16");
+            rec.counters["delayed_delivery_configurations"]++;
+            if (D.found.empty() && D.exhaustive) { std::set<std::string> o1, o2; for (auto& kv : R.outcomes) o1.insert(kv.first); for (auto& kv : D.outcomes) o2.insert(kv.first);
+                if (o1 != o2) throw std::runtime_error("delivery-model mismatch: instant and delayed delivery give different outcome sets for " + c.str() + " (" + std::to_string(o1.size()) + " vs " + std::to_string(o2.size()) + ")");
+                rec.counters["delayed_delivery_outcome_sets_equal"]++; if (rec.counters["delayed_delivery_outcome_sets_equal"] % 9 == 1) rec.sample(cd_.str() + " : executions=" + std::to_string(D.executions) + " states=" + std::to_string(D.states) + " same " + std::to_string(o2.size()) + " outcome(s) as instant delivery", 14); }
+        }
     }
     rec.bound = "all interleavings (no deviation bound), P<=" + std::to_string(Pmax) + ", J<=" + std::to_string(Jmax) + ", R<=3 (P<=2) / 2, eager and rendezvous sends, equal and distinct complexities; harnesses mpi_skel::run and dedicated-master loop";
     return 0;
